@@ -21,7 +21,7 @@ PER_PREFIX_TIMEOUT = 10
 
 
 def gen_case(rng, tier):
-    kind = rng.choice(['bqm', 'bqm', 'qm', 'qm', 'cqm', 'dqm'])
+    kind = rng.choice(['bqm', 'bqm', 'qm', 'qm', 'cqm', 'dqm', 'cqm_member', 'cqm_member'])
     c = {"kind": kind, "how": rng.choice(['bytes', 'bytes', 'file', 'load_bytes'])}
     wild = 0.15
     if kind == 'bqm':
@@ -40,6 +40,12 @@ def gen_case(rng, tier):
     elif kind == 'cqm':
         c["cqm"] = G.rand_cqm_desc(rng, nmax=3, cmax=1, wild_p=wild)
         c["compress"] = rng.random() < 0.5
+    elif kind == 'cqm_member':
+        # a VALID zip in which one member handled by a raw-buffer loader (varinfo, objective, a constraint's lhs)
+        # was cut short
+        c["cqm"] = G.rand_cqm_desc(rng, nmax=4, cmax=2, wild_p=wild)
+        c["compress"] = rng.random() < 0.5
+        c["member_sel"] = rng.random()
     else:
         c["dqm"] = G.rand_dqm_desc(rng, nmax=3, wild_p=wild)
         c["compress"] = rng.random() < 0.5
@@ -59,7 +65,7 @@ def make_file(c):
         m = G.build_qm(c["desc"], c["dtype"])
         data = m.to_file().read()
         exp = state_of(m)
-    elif kind == 'cqm':
+    elif kind in ('cqm', 'cqm_member', 'memcheck_member'):
         m = G.build_cqm(c["cqm"])
         data = m.to_file(compress=c["compress"]).read()
         exp = state_of(m)
@@ -81,13 +87,13 @@ def make_file(c):
 VALGRIND = ["valgrind", "-q", "--error-exitcode=9", "--num-callers=12"]
 
 
-def run_prefixes(kind, data, ks, how, ref_digest=None, under=None, noref=False):
+def run_prefixes(kind, data, ks, how, ref_digest=None, under=None, noref=False, member=None):
     """-> {k: (bucket, detail)} with bucket in exception/equal/different/crash/hang"""
     out = {}
     todo = list(ks)
     env = dict(os.environ)
     while todo:
-        job = json.dumps({"kind": kind, "hex": data.hex(), "ks": todo, "how": how, "noref": noref,
+        job = json.dumps({"kind": kind, "hex": data.hex(), "ks": todo, "how": how, "noref": noref, "member": member,
                           "timeout": PER_PREFIX_TIMEOUT * (30 if under else 1)})
         if under:
             env["PYTHONMALLOC"] = "malloc"
@@ -160,6 +166,74 @@ def run_special(c, m, data, exp):
             "observed": {"ks": ks, "res": {str(k): v[0] for k, v in res.items()}}}
 
 
+def run_memcheck_member(c, m, data, exp):
+    """record-aligned cuts of the varinfo / objective / lhs members of a valid CQM zip, loaded under valgrind:
+       the guarded raw loaders (_ivarinfo_load, _iindices_load, _ilinear_load, _iquadratic_load) must raise, not read
+       past the buffer"""
+    mem = G.zip_members(data)
+    names = ['varinfo', 'objective'] + sorted(n for n in mem if n.endswith('/lhs'))
+    ks = []
+    for i, name in enumerate(names):
+        blob = mem[name]
+        cuts = []
+        for magic, lenb, item in ((b'VTYP', 4, 17), (b'INDX', 4, 4), (b'LINB', 4, 8), (b'QUAD', 8, 16)):
+            p = blob.find(magic)
+            if p >= 0:
+                start = p + 4 + lenb
+                cuts += [start + item * j for j in c["items"]]
+        ks += [i * 100000 + k for k in cuts if k < len(blob)]
+    feats = {"kind": "memcheck_member", "oob_member_truncated": True}
+    ref_digest = hashlib.sha256(json.dumps(exp, sort_keys=True).encode()).hexdigest()
+    res = run_prefixes('cqm', data, ks, 'bytes', ref_digest, under=VALGRIND, member=names)
+    fails = []
+    if "memcheck" in res:
+        fails.append(f"memcheck: invalid memory access while loading CQM files with a cut zip member: {res['memcheck'][1]}")
+        feats["bucket"] = "memcheck"
+    elif "ref" in res:
+        fails.append(f"runner failed: {res['ref']}")
+        feats = {"kind": "memcheck_member", "runner_failed": True}
+    else:
+        for k in ks:
+            b, det = res.get(k, ("crash", "no result"))
+            if b not in ("exception", "equal"):
+                fails.append(f"member {names[k // 100000]!r} cut to {k % 100000} bytes: {b} ({det[-200:]})")
+                feats["bucket"] = b
+    return {"coq": None, "py_fail": "; ".join(fails[:3]) if fails else None, "features": feats, "nontrivial": len(ks) > 4,
+            "observed": {"n_cuts": len(ks), "members": names, "res": {str(k): v[0] for k, v in res.items()}}}
+
+
+def run_member(c, m, data, exp):
+    mem = G.zip_members(data)
+    names = ['varinfo', 'objective'] + sorted(n for n in mem if n.endswith('/lhs'))
+    name = names[min(int(c["member_sel"] * len(names)), len(names) - 1)]
+    blob = mem[name]
+    feats = {"kind": "cqm_member", "member": 'lhs' if name.endswith('/lhs') else name}
+    if len(blob) > 1536:
+        return {"coq": None, "py_fail": None, "features": feats, "nontrivial": False, "observed": {"len": len(blob), "skipped": "too long"}}
+    ref_digest = hashlib.sha256(json.dumps(exp, sort_keys=True).encode()).hexdigest()
+    ks = list(range(len(blob)))
+    res = run_prefixes('cqm', data, ks, c["how"], ref_digest, member=name)
+    if "ref" in res:
+        return {"coq": None, "py_fail": f"loading the complete file does not reproduce the model ({res['ref']})",
+                "features": dict(feats, full_load=False), "nontrivial": True}
+    fails, buckets = [], {}
+    for k in ks:
+        b, det = res.get(k, ("crash", "no result"))
+        buckets.setdefault(b, []).append(k)
+        if b in ("different", "crash", "hang") and len(fails) < 3:
+            fails.append(f"zip member {name!r} cut to {k}/{len(blob)} bytes: {b} ({det})")
+            feats["bucket"] = b
+    ok = buckets.get("equal", [])
+    if name == 'varinfo':
+        fmt = f"(FVinfo {cnat(len(m.variables))})"
+    else:
+        fmt = "FExpr"
+    coq = f"(mkCase {fmt} {cbytes(blob)} (seq 0 {len(blob)}) {clist([cnat(k) for k in ok])})"
+    return {"coq": coq, "py_fail": "; ".join(fails) if fails else None, "features": feats, "nontrivial": len(blob) > 64,
+            "observed": {"member": name, "len": len(blob), "buckets": {b: len(v) for b, v in buckets.items()},
+                         "first_equal": ok[0] if ok else None}}
+
+
 def run_case(c):
     kind = c["kind"]
     feats = {"kind": kind}
@@ -167,6 +241,10 @@ def run_case(c):
     fails = []
     if kind in ('bigqm', 'memcheck'):
         return run_special(c, m, data, exp)
+    if kind == 'memcheck_member':
+        return run_memcheck_member(c, m, data, exp)
+    if kind == 'cqm_member':
+        return run_member(c, m, data, exp)
     if len(data) > MAX_LEN[kind]:
         return {"coq": None, "py_fail": None, "features": feats, "nontrivial": False, "observed": {"len": len(data), "skipped": "too long"}}
     ref_digest = hashlib.sha256(json.dumps(exp, sort_keys=True).encode()).hexdigest()
